@@ -125,11 +125,11 @@ class ToyInputs:
     """Symbolic leaves of a TOY state, declared once so that several simulations can be built
     from the same pre-state."""
 
-    def __init__(self, e, mem_size=None, done=None, next_cycle=None, ir_opcode=None):
+    def __init__(self, e, mem_size=None, done=None, next_cycle=None, ir_opcode=None, pc_full=False):
         self.e = e
         self.mem_size = mem_size
         self.accu = e.int("accu", 0, 0xFFFF)
-        self.pc = e.int("pc", 0, (mem_size or 4096) - 1)
+        self.pc = e.int("pc", 0, 4095 if pc_full else (mem_size or 4096) - 1)
         self.max_pc = e.int("max_pc", 0, (mem_size or 4096) - 1)
         if ir_opcode is None:
             self.ir_word = e.int("ir", 0, 0xFFFF)
